@@ -4,6 +4,8 @@ import (
 	"fmt"
 	"go/constant"
 	"go/token"
+	"go/types"
+	"sort"
 	"strings"
 
 	"verifchk/internal/an"
@@ -31,6 +33,181 @@ func runC14(c *an.Ctx) {
 	// rank, on a role that is neither it nor its descendant.
 	c.Rule("R14g", "roleBase.copy: Defaults, Vars and UserVars of the copy are copies, not the template's own stores", 1)
 	copiedMembers(c, "roleBase.copy", []string{"Defaults", "Vars", "UserVars"})
+	r14h(c)
+	r14i(c)
+	r14j(c)
+}
+
+// condsDependingOn: the control conditions of b (outside loop control) that are computed from v (or, when v is a
+// load of a local variable, from any load of that variable).
+func condsDependingOn(c *an.Ctx, b *ssa.BasicBlock, v ssa.Value) []string {
+	same := map[ssa.Value]bool{v: true}
+	if u, ok := v.(*ssa.UnOp); ok && u.Op == token.MUL {
+		if al, isAl := u.X.(*ssa.Alloc); isAl && al.Referrers() != nil {
+			for _, r := range *al.Referrers() {
+				if ld, isLd := r.(*ssa.UnOp); isLd && ld.Op == token.MUL {
+					same[ld] = true
+				}
+			}
+		}
+	}
+	var mentions func(x ssa.Value, depth int, seen map[ssa.Value]bool) bool
+	mentions = func(x ssa.Value, depth int, seen map[ssa.Value]bool) bool {
+		if x == nil || depth > 8 || seen[x] {
+			return false
+		}
+		seen[x] = true
+		if same[x] {
+			return true
+		}
+		in, ok := x.(ssa.Instruction)
+		if !ok {
+			return false
+		}
+		for _, op := range in.Operands(nil) {
+			if *op != nil && mentions(*op, depth+1, seen) {
+				return true
+			}
+		}
+		return false
+	}
+	var out []string
+	for _, g := range an.ControlConds(b) {
+		if g.LoopHeader || g.LoopExit {
+			continue
+		}
+		if mentions(g.V, 0, map[ssa.Value]bool{}) {
+			p := c.PosStr(condPos(g.V))
+			dup := false
+			for _, e := range out {
+				dup = dup || e == p
+			}
+			if !dup {
+				out = append(out, p)
+			}
+		}
+	}
+	sort.Strings(out)
+	return out
+}
+
+// R14h: "an empty value is a definition": the output of a call is stored in its return variable whatever it is.
+func r14h(c *an.Ctx) {
+	c.Rule("R14h", "Call.Call: the return variable is set whatever the output's value (an empty output is a definition)", 1)
+	fn := c.MustFn("core/workflow/callable", "Call.Call")
+	if fn == nil {
+		return
+	}
+	n := 0
+	for _, ci := range an.Calls(fn, func(nm string, ci ssa.CallInstruction) bool { return an.MethodName(ci.Common()) == "SetRuntimeVar" }) {
+		args := ci.Common().Args
+		if len(args) < 2 {
+			continue
+		}
+		val := args[len(args)-1]
+		n++
+		c.Subject()
+		deps := condsDependingOn(c, ci.Block(), val)
+		c.Ob(fmt.Sprintf("(*core/workflow/callable.Call).Call|set-return-var#%d|whatever-the-value", n), ci.Pos(), len(deps) == 0,
+			"whether the call's output is stored in its return variable depends on the output itself (conditions at %v): an empty output no longer overrides the value an ancestor defines (or an earlier result) although an empty value is a definition", deps)
+	}
+	if n == 0 {
+		c.Lost("SetRuntimeVar(returnVar, output) in Call.Call")
+	}
+}
+
+// R14i: an include role publishes its locals (the iteration variable of an enclosing iterator among them) to its vars
+// while it still has them: the replacement of its base by the root of the included workflow brings an empty Locals map.
+func r14i(c *an.Ctx) {
+	c.Rule("R14i", "includeRole.ProcessTemplates: Locals are copied into Vars before the role's base is replaced by the included root", 1)
+	fn := c.MustFn("core/workflow", "includeRole.ProcessTemplates")
+	if fn == nil {
+		return
+	}
+	var ranges, replaces []ssa.Instruction
+	an.Instrs(fn, func(in ssa.Instruction) {
+		switch x := in.(type) {
+		case *ssa.Range:
+			if isFieldNamed(x.X, "Locals") {
+				ranges = append(ranges, x)
+			}
+		case *ssa.Store:
+			if fa, ok := x.Addr.(*ssa.FieldAddr); ok && isFieldNamed(fa, "aggregatorRole") {
+				if _, isStruct := x.Val.Type().Underlying().(*types.Struct); isStruct {
+					replaces = append(replaces, x)
+				}
+			}
+		}
+	})
+	if len(ranges) == 0 || len(replaces) == 0 {
+		c.Lost("the Locals->Vars copy or the replacement of the embedded aggregatorRole in includeRole.ProcessTemplates")
+		return
+	}
+	c.Subject()
+	ok := true
+	for _, rg := range ranges {
+		for _, rp := range replaces {
+			if an.CanReach(rp, rg) {
+				ok = false
+			}
+		}
+	}
+	c.Ob("(*core/workflow.includeRole).ProcessTemplates|locals-published-before-replacement", ranges[0].Pos(), ok,
+		"the Locals of the include role are read after its embedded role was replaced by the included workflow's root (whose Locals are empty): the roles of a workflow included under an iterator see an ancestor's iteration variable, or none")
+}
+
+// R14j: a task template's own defaults and vars are evaluated per task in a copy: evaluating them in the class's own
+// maps gives every later task of the class the first task's resolved values.
+func r14j(c *an.Ctx) {
+	c.Rule("R14j", "Task.BuildTaskCommand: the class's Defaults/Vars are templated in copies (RawCopy), never in the class's own maps", 2)
+	fn := c.MustFn("core/task", "Task.BuildTaskCommand")
+	if fn == nil {
+		return
+	}
+	n := 0
+	for _, ci := range an.Calls(fn, func(nm string, _ ssa.CallInstruction) bool {
+		return strings.HasSuffix(nm, "configuration/template.WrapMapItems")
+	}) {
+		arg := ci.Common().Args[0]
+		fromClass, viaCopy := false, false
+		var shared []string
+		for _, l := range an.BackSlice(arg, an.SliceOpts{LeafCall: func(nm string, cl *ssa.Call) bool {
+			m := an.MethodName(&cl.Call)
+			return m == "RawCopy" || m == "Copy"
+		}}) {
+			if l.Kind == "call" {
+				viaCopy = true
+				// is the copy taken from the class?
+				cc := &l.Val.(*ssa.Call).Call
+				var recv ssa.Value
+				if cc.IsInvoke() {
+					recv = cc.Value
+				} else if len(cc.Args) > 0 {
+					recv = cc.Args[0]
+				}
+				for _, l2 := range an.BackSlice(recv, an.SliceOpts{}) {
+					if strings.Contains(l2.Path, "Class") {
+						fromClass = true
+					}
+				}
+			}
+			if (l.Kind == "field" || l.Kind == "via") && strings.Contains(l.Path, "Class.") {
+				fromClass = true
+				shared = append(shared, l.Path)
+			}
+		}
+		if !fromClass {
+			continue
+		}
+		n++
+		c.Subject()
+		sort.Strings(shared)
+		c.Ob(fmt.Sprintf("(*core/task.Task).BuildTaskCommand|class-map#%d|templated-in-a-copy", n), ci.Pos(), viaCopy && len(shared) == 0,
+			"a map of the task class itself (%v) is handed to the in-place template evaluation: the first task's resolved values are written into the shared class and every later task of that class - under whatever role - gets them", shared)
+	}
+	if n < 2 {
+		c.Lost("the two template evaluations of the class's Defaults and Vars in Task.BuildTaskCommand")
+	}
 }
 
 // kindOf classifies a value by the variable-kind field it was flattened from.
